@@ -40,6 +40,10 @@ def commb_frame(rng, df, mb, ac13=None):
         f[4 + k] = (mb >> (8 * (6 - k))) & 255
     if ac13 is not None:
         f = gen.set_bits(f, 20, 32, ac13)
+    u = rng.random()
+    if u < 0.12:
+        # the address-parity field of a reply from a boundary address (000000: AP = plain parity; FFFFFF; a one-bit address)
+        f = gen.with_parity(f[:11], rng.choice([0, 0, 0xFFFFFF, 1 << rng.randrange(24)]))
     return f
 
 
